@@ -102,11 +102,18 @@ def run(ctx):
         "record before reading the sink) or stalled with the delivery goroutine occupied by a primer record",
     ]
     ctx.assumptions += [
-        "schedules: the Lean model is sequential; that concurrent loggers never interleave, that synchronous mode keeps "
-        "each goroutine's order and returns the sink's error to the right caller, and that buffered Handle never blocks "
-        "are NOT proved — they are observed by the implementation-side oracle `stress` (N goroutines x M numbered "
-        "records, -race build, halt_on_error) on every run",
-        "sync.Mutex, channels and the Go memory model behave as documented",
+        "schedules: the clauses about concurrent loggers are proved for EVERY schedule on protocol models, not on the Go "
+        "code: buffered mode on TraceProto (producers: atomic format step + the non-blocking select; one delivery "
+        "goroutine: receive, then a Write that returns after any number of steps, ok / error ignored / panic = goroutine "
+        "dead); synchronous mode on the generic mutex-bracket machine (Model/Mutex.lean, Lemmas/MutexLin.lean by the C12 "
+        "builder) instantiated with a sink that takes the line one byte per micro-step.  That the code IS these "
+        "protocols — a fresh buffer per call, exactly one select with default, no lock on the buffered path, the lock "
+        "shared by a handler family and held across exactly the sink.Write on the synchronous path — is carried by the "
+        "forced-schedule stream `sched` (outcome must be in the set the protocol model allows), the deterministic "
+        "hold/release part of `log`, and the -race stress oracle",
+        "Go channels are FIFO with the documented select semantics; sync.Mutex is a mutex; the Go memory model",
+        "a panic of the sink inside the delivery goroutine is not recovered by the code (the process dies); the model "
+        "has it as the consumer state `dead`; the harness never lets a buffered sink panic",
         "slog.Value.Resolve, strconv.Quote, time.Format and fmt are correct (their output enters the model as tokens)",
     ]
     ctx.lean(props=["Props.C13"], drivers=["drv_c13"])
